@@ -153,9 +153,9 @@ pub fn one(f: &Family, limit: usize, delta: i64) -> (String, Option<Violation>) 
 
 pub fn function_part(rep: &mut Report, thorough: bool) -> (u64, std::collections::BTreeSet<String>) {
     let fams = families();
-    let mut limits: Vec<usize> = if thorough { (512..=4096).collect() } else { (512..=640).chain((641..=4096).step_by(61)).collect() };
+    let mut limits: Vec<usize> = if thorough { (512..=4096).collect() } else { (512..=1300).chain((1301..=4096).step_by(13)).collect() };
     limits.extend([8192, 16383, 16384, 16385, 32768, 65535]);
-    let deltas: Vec<i64> = if thorough { (-20..=40).chain([1000, 60000]).collect() } else { (-4..=14).chain([1000]).collect() };
+    let deltas: Vec<i64> = if thorough { (-20..=40).chain([1000, 60000]).collect() } else { (-6..=16).chain([1000]).collect() };
     let mut work = vec![];
     for (fi, _) in fams.iter().enumerate() {
         for l in &limits {
@@ -183,6 +183,16 @@ pub fn function_part(rep: &mut Report, thorough: bool) -> (u64, std::collections
         let p = build(f, Some((total - base).min(65535)));
         n += 1;
         let case = json!({"engine":"c04","part":"function","family":"tcp-max","total":total});
+        // serialise() is what the TCP paths (out-queries, and any caller without an explicit limit) use:
+        // it must never produce more than a 16 bit length prefix can frame
+        match panics::catch(|| p.serialise()) {
+            Err(_) => {}
+            Ok(w) => {
+                if w.len() > 65535 {
+                    rep.violation(Violation::new("over-limit", format!("serialise() produced {} octets, more than any DNS transport can frame (65535)", w.len()), json!({"engine":"c04","part":"function","family":"tcp-max","total":total,"fn":"serialise"})).sig("part", "function").sig("fn", "serialise"));
+                }
+            }
+        }
         match panics::catch(|| p.serialise_with_size(65535)) {
             Err(pi) => rep.violation(Violation::new("serialise-panic", format!("serialise_with_size(65535) panicked: {} at {}", pi.msg, panics::short_loc(&pi.loc)), case).sig("loc", panics::short_loc(&pi.loc))),
             Ok(w) => {
@@ -196,6 +206,276 @@ pub fn function_part(rep: &mut Report, thorough: bool) -> (u64, std::collections
         }
     }
     (n, classes)
+}
+
+// ---------------------------------------------------------------------------
+// Part 2: the live service
+// ---------------------------------------------------------------------------
+
+use crate::enet::{BASE_YAML, Rig, RigSpec, TcpClient, UdpClient};
+use crate::netrun::{self, CaseResult};
+
+pub fn cases(tier: &str) -> Vec<Value> {
+    let thorough = tier == "thorough";
+    let mut out = vec![];
+    let mut adv: Vec<&str> = vec!["none", "size:0", "size:511", "size:512", "size:513", "size:1232", "size:4096", "size:65535"];
+    if thorough {
+        adv.extend(["size:600", "size:1024", "size:1500", "size:2048", "size:4095", "size:8192", "size:16384", "size:32768"]);
+    }
+    for a in &adv {
+        for tr in ["udp", "tcp"] {
+            out.push(json!({"engine":"enet","check":"c04","edns":a,"transport":tr,"thorough":thorough}));
+        }
+    }
+    out
+}
+
+fn upstream_reply(oq: &Msg, pad: usize, shape: usize) -> Msg {
+    let qn = oq.question[0].0.clone();
+    let mut an = vec![a(&qn, 1), a(&qn, 2)];
+    let mut ns = vec![];
+    let mut ar = vec![];
+    // the pad is a TXT record (several 255-octet strings are not needed: opaque rdata)
+    let padrr = |l: usize| Rr { name: qn.clone(), rtype: rd::T_TXT, class: 1, ttl: 30, rdata: Rdata::Raw(vec![0x62; l]) };
+    match shape {
+        0 => an.push(padrr(pad)),
+        1 => {
+            ns.push(Rr { name: rd::name("example.com"), rtype: rd::T_NS, class: 1, ttl: 300, rdata: Rdata::Name(rd::name("ns1.example.com")) });
+            ns.push(padrr(pad));
+            ar.push(a(&rd::name("ns1.example.com"), 53));
+        }
+        _ => {
+            ar.push(padrr(pad));
+            ar.push(a(&rd::name("ns1.example.com"), 53));
+            ar.push(a(&rd::name("ns2.example.com"), 54));
+        }
+    }
+    Msg { id: oq.id, flags: 0x8180, question: oq.question.clone(), answer: an, authority: ns, additional: ar }
+}
+
+/// One exchange where the scripted upstream follows the protocol for large answers
+/// (TC over UDP when the reply exceeds the forwarder's advertised 4096, then the full reply over TCP).
+fn big_exchange(rig: &mut Rig, qb: &[u8], transport: &str, pad: usize, shape: usize) -> Result<(Option<Vec<u8>>, Msg, usize), String> {
+    let dst = rig.listen_addr(0);
+    let cip: std::net::IpAddr = "::1".parse().unwrap();
+    let mut uc = None;
+    let mut tc = None;
+    if transport == "tcp" {
+        let mut c = TcpClient::connect(Some(cip), dst)?;
+        c.conn.send_frame(qb)?;
+        tc = Some(c);
+    } else {
+        let c = UdpClient::new(cip)?;
+        c.send(dst, qb)?;
+        uc = Some(c);
+    }
+    let mut served: Option<(Msg, usize)> = None;
+    let mut seen_udp = rig.upstreams[0].udp_rx.len();
+    let mut seen_tcp: Vec<usize> = rig.upstreams[0].conns.iter().map(|c| c.frames_in.len()).collect();
+    let mut got: Option<Vec<u8>> = None;
+    for _round in 0..400 {
+        rig.pump(4);
+        rig.poll_upstreams();
+        // serve upstream side
+        while seen_udp < rig.upstreams[0].udp_rx.len() {
+            let (b, src) = rig.upstreams[0].udp_rx[seen_udp].clone();
+            seen_udp += 1;
+            let (oq, _) = rd::decode(&b).map_err(|e| format!("malformed upstream query: {e}"))?;
+            let full = upstream_reply(&oq, pad, shape);
+            let fb = rd::encode(&full, true);
+            if fb.len() > 4096 {
+                let tcm = Msg { id: oq.id, flags: 0x8380, question: oq.question.clone(), answer: vec![], authority: vec![], additional: vec![] };
+                rig.upstreams[0].udp_reply(src, &rd::encode(&tcm, true))?;
+            } else {
+                served = Some((full, fb.len()));
+                rig.upstreams[0].udp_reply(src, &fb)?;
+            }
+        }
+        while seen_tcp.len() < rig.upstreams[0].conns.len() {
+            seen_tcp.push(0);
+        }
+        for ci in 0..rig.upstreams[0].conns.len() {
+            while seen_tcp[ci] < rig.upstreams[0].conns[ci].frames_in.len() {
+                let b = rig.upstreams[0].conns[ci].frames_in[seen_tcp[ci]].clone();
+                seen_tcp[ci] += 1;
+                let (oq, _) = rd::decode(&b).map_err(|e| format!("malformed upstream TCP query: {e}"))?;
+                let full = upstream_reply(&oq, pad, shape);
+                let fb = rd::encode(&full, true);
+                if fb.len() > 65535 {
+                    return Err("harness: upstream reply over 65535".into());
+                }
+                served = Some((full, fb.len()));
+                rig.upstreams[0].conns[ci].send_frame(&fb)?;
+            }
+        }
+        if let Some(c) = uc.as_mut() {
+            c.poll();
+            if let Some((b, _)) = c.rx.first() {
+                got = Some(b.clone());
+                break;
+            }
+        }
+        if let Some(c) = tc.as_mut() {
+            c.poll();
+            if let Some(b) = c.conn.frames_in.first() {
+                got = Some(b.clone());
+                break;
+            }
+            if c.conn.eof {
+                break;
+            }
+        }
+    }
+    let (full, fl) = served.ok_or("upstream never saw the query")?;
+    Ok((got, full, fl))
+}
+
+pub fn run_case(case: &Value) -> CaseResult {
+    let edns = case["edns"].as_str().unwrap_or("none");
+    let transport = case["transport"].as_str().unwrap_or("udp");
+    let thorough = case["thorough"].as_bool().unwrap_or(false);
+    let advertised: usize = edns.strip_prefix("size:").and_then(|s| s.parse().ok()).unwrap_or(0);
+    let limit = if transport == "tcp" { 65535 } else { advertised.max(512) };
+    let spec = RigSpec { listeners: vec!["::1".into()], n_upstreams: 1, yaml: BASE_YAML.into() };
+    let mut res = CaseResult::ok("");
+    let mut classes: std::collections::BTreeSet<String> = Default::default();
+    let mut n = 0u64;
+    // one rig per (shape): different pads use different query names so the cache never interferes
+    for shape in 0..3usize {
+        let mut rig = match Rig::start(&spec) {
+            Ok(r) => r,
+            Err(e) => return CaseResult::machinery(e),
+        };
+        let mut seq = 0u32;
+        let mut ask = |rig: &mut Rig, pad: usize, tr: &str| -> Result<(Option<Vec<u8>>, Msg, usize, Msg), String> {
+            seq += 1;
+            let q = json!({"name": format!("n{seq}.pad.example"), "type": 16, "class": 1, "edns": edns, "flags": "rd", "transport": tr});
+            let (qm, qb) = crate::checks::c03::build_query(&q, 0x3000 + seq as u16);
+            let (got, full, fl) = big_exchange(rig, &qb, tr, pad, shape)?;
+            Ok((got, full, fl, qm))
+        };
+        // calibration: complete TCP answer for a small pad gives the constant offset between the
+        // upstream's encoding and the forwarder's own full encoding
+        let cal = match ask(&mut rig, 10, "tcp") {
+            Ok(x) => x,
+            Err(e) => {
+                let _ = rig.stop();
+                return CaseResult::machinery(format!("calibration: {e}"));
+            }
+        };
+        let Some(cal_bytes) = cal.0 else {
+            let ps = rig.stop();
+            res.violations.push(Violation::new("no-reply", format!("no reply to the calibration query over TCP{}", ps.first().map(|p| format!(" (panic: {} at {})", p.msg, panics::short_loc(&p.loc))).unwrap_or_default()), case.clone()).sig("part", "e2e"));
+            return res;
+        };
+        let offset = cal_bytes.len() as i64 - cal.2 as i64;
+        let mut pads: Vec<i64> = vec![];
+        let base_pad_for = |target: i64| -> i64 { 10 + (target - (cal.2 as i64 + offset)) };
+        let deltas: Vec<i64> = if thorough { (-20..=20).collect() } else { (-6..=8).collect() };
+        if transport == "udp" {
+            for d in &deltas {
+                pads.push(base_pad_for(limit as i64 + d));
+            }
+        }
+        for big in [2048i64, 4000, 4200, 17000, 60000, 65000, 65400] {
+            pads.push(base_pad_for(big));
+        }
+        if transport == "tcp" {
+            // around 65535 of the forwarder's own encoding
+            for d in [-3i64, -2, -1, 0, 1, 2, 12, 40] {
+                pads.push(base_pad_for(65535 + d));
+            }
+        }
+        for pad in pads {
+            if !(0..=65000).contains(&pad) {
+                continue;
+            }
+            n += 1;
+            let r = ask(&mut rig, pad as usize, transport);
+            let sub = json!({"engine":"enet","check":"c04","edns":edns,"transport":transport,"shape":shape,"pad":pad,"thorough":thorough});
+            match r {
+                Err(e) => {
+                    res.machinery = Some(e);
+                    break;
+                }
+                Ok((None, _, _, _)) => {
+                    res.violations.push(Violation::new("no-reply", format!("no reply ({transport}, advertised {edns}, pad {pad})"), sub).sig("part", "e2e").sig("transport", transport));
+                    classes.insert("no-reply".into());
+                }
+                Ok((Some(wire), up, up_len, qm)) => {
+                    // the full message as the forwarder would send it unlimited
+                    let mut full = up.clone();
+                    full.id = qm.id;
+                    full.question = qm.question.clone();
+                    full.additional.push(rd::opt_rr(4096, 0, 0, false, vec![]));
+                    let full_size = (up_len as i64 + offset) as usize;
+                    match judge_limited(&wire, limit, &full, full_size) {
+                        Ok(c) => {
+                            classes.insert(format!("{transport}:{c}:{}", if full_size <= limit { "fits" } else { "over" }));
+                        }
+                        Err((oracle, what)) => {
+                            classes.insert(format!("violation:{oracle}"));
+                            res.violations.push(Violation::new(&oracle, format!("{transport} client advertising {edns} (limit {limit}), full answer {full_size} octets: {what}"), sub).sig("part", "e2e").sig("transport", transport));
+                        }
+                    }
+                    if transport == "tcp" {
+                        // TCP length prefix = body length is implied by the frame splitter having produced this frame
+                    }
+                }
+            }
+        }
+        let _ = rig.stop();
+        if res.machinery.is_some() {
+            break;
+        }
+    }
+    res.class = format!("e2e:{transport}:{edns}");
+    let mut st = serde_json::Map::new();
+    st.insert("exchanges".into(), json!(n));
+    for c in classes {
+        st.insert(format!("class:{c}"), json!(1));
+    }
+    res.stats = Value::Object(st);
+    res
+}
+
+pub fn run(tier: &str, replay: Option<Value>) -> ! {
+    let mut rep = Report::new("C04", if replay.is_some() { "quick" } else { tier }, "exploration");
+    if let Some(case) = replay {
+        rep.replay_mode = true;
+        let case = if case.get("case").is_some() { case["case"].clone() } else { case };
+        if case["engine"].as_str() == Some("enet") {
+            netrun::replay_one(&mut rep, &case, run_case);
+        } else {
+            let fams = families();
+            if let Some(f) = fams.iter().find(|f| Some(f.name) == case["family"].as_str()) {
+                if let (_, Some(v)) = one(f, case["limit"].as_u64().unwrap_or(512) as usize, case["delta"].as_i64().unwrap_or(1)) {
+                    rep.violation(v);
+                }
+            } else {
+                function_part(&mut rep, false);
+            }
+        }
+        rep.finish();
+    }
+    let (n, mut classes) = function_part(&mut rep, tier == "thorough");
+    let agg = netrun::run_sharded(&mut rep, "C04", tier, cases, 16);
+    let ex = agg.stats_sum.get("exchanges").copied().unwrap_or(0.0) as u64;
+    for k in agg.stats_sum.keys() {
+        if let Some(c) = k.strip_prefix("class:") {
+            classes.insert(format!("e2e:{c}"));
+        }
+    }
+    rep.cov("evaluations", n + ex);
+    rep.cov("distinct_nontrivial", classes.len() as u64);
+    rep.cov("rule", "function level: serialise_with_size(limit) for every limit 512..=4096 (quick: 512..=1300 all, then step 13) (+ 8192,16383,16384,16385,32768,65535) x 6 message families x every size delta around the limit, decoded by the independent strict decoder. end to end: live DnsService, clients advertising {no EDNS, 0, 511, 512, 513, 1232, 4096, 65535 (+8 more in thorough)} over UDP and TCP, upstream answers sized so that the forwarder's full answer is limit-20..limit+20 (quick -6..+8) and 2K/4K/17K/60K/65K and 65532..65535 over TCP, 3 answer shapes (pad record in answer/authority/additional); distinct = (part, transport, outcome, fits/over) classes");
+    rep.cov("exhaustive", true);
+    rep.cov("parts", json!({"function": n, "end_to_end_exchanges": ex}));
+    rep.cov("classes", json!(classes));
+    rep.cov("workers_in_private_netns", agg.isolated_workers as u64);
+    rep.cov("samples", json!([{"family":"three-sections","limit":512,"delta":1},{"engine":"enet","edns":"size:1232","transport":"udp","shape":1,"pad":1100}]));
+    rep.assume("OPT-only omission is don't-care; the upstream script follows the protocol (TC over UDP above 4096, then TCP)");
+    rep.finish()
 }
 
 pub fn run_function_only(tier: &str, replay: Option<Value>) -> ! {
